@@ -58,6 +58,11 @@ def sc_create(case, ctx):
             pixels[c["name"]] = {k: fr[k].values for k in fr.columns}
         else:
             pixels[c["name"]] = fr
+    if case.get("prior_cells"):
+        # an earlier run wrote another single-cell file to the same path (default mode: the file is replaced by the next run)
+        pb = gen.bins_frame(table)
+        cooler.create_scool(path, pb, {nm: gen.pixels_frame([[0, 0, 9]]) for nm in case["prior_cells"]}, ordered=True,
+                            symmetric_upper=symm)
     if case.get("ordered", True):
         cooler.create_scool(path, bins, pixels, ordered=True, symmetric_upper=symm, **kw)
     else:
@@ -219,4 +224,35 @@ def rn_many(case, ctx):
         out[tag] = {"names": names, "labels_follow_names": labels == names, "nbins": int(len(b)),
                     "extent_by_new_name": [int(lo), int(hi)],
                     "pixels": project.pixel_rows(c.pixels()[:], ["bin1_id", "bin2_id", "count"])}
+    return out
+
+
+@driver("rn.big", timeout=600)
+def rn_big(case, ctx):
+    """Renaming in a collection with MORE THAN A MILLION bins (a count that is not a multiple of 10^6): the chromosome labels of
+    the bin table are projected as runs (name, length) - every bin is looked at, no bin is listed."""
+    import cooler
+    import pandas as pd
+    from cooler.util import rlencode
+    lens = case["lens"]
+    names0 = gen.CHROMNAMES[:len(lens)]
+    path = ctx.path()
+    bins = cooler.binnify(pd.Series(lens, index=names0), 1)
+    cooler.create_cooler(path, bins, gen.pixels_frame(case["px"]), ordered=True)
+    clr = cooler.Cooler(path)
+    m = {names0[k]: nm for k, nm in case["renames"]}
+    cooler.rename_chroms(clr, m)
+    out = {}
+    for tag, c in (("live", clr), ("reopened", cooler.Cooler(path))):
+        lab = c.bins()["chrom"][:]
+        codes = np.asarray(lab.cat.codes) if hasattr(lab, "cat") else pd.factorize(lab)[0]
+        cats = [str(x) for x in (lab.cat.categories if hasattr(lab, "cat") else pd.unique(lab))]
+        starts, lengths, values = rlencode(codes)
+        names = [str(x) for x in c.chromnames]
+        last = names[-1]
+        lo, hi = c.extent(last)
+        fb = c.bins().fetch(last)
+        out[tag] = {"names": names, "runs": [[cats[int(v)], int(ln)] for v, ln in zip(values, lengths)],
+                    "extent_last": [int(lo), int(hi)], "fetch_last_labels": sorted({str(x) for x in fb["chrom"]}),
+                    "fetch_last_n": int(len(fb)), "pixels": project.pixel_rows(c.pixels()[:], ["bin1_id", "bin2_id", "count"])}
     return out
